@@ -258,8 +258,26 @@ fn adversarial(rng: &mut Rng) -> Case {
         3 => ("lark", format!("start: /{}/\n", "(a*)*".repeat(rng.range(1, 30)))),
         4 => ("lark", format!("start: /(a|aa|aaa){{{},{}}}b/\n", rng.range(1, 50), rng.range(50, 3000))),
         5 => ("lark", format!("start: {}\n", (0..rng.range(50, 2000)).map(|i| format!("\"k{i}\"")).collect::<Vec<_>>().join(" | "))),
-        6 => ("lark", "start: a\na: b\nb: a | \"\"\n".to_string()),
+        6 => {
+            // nesting of every bracket kind the Lark front end recurses on
+            let d = *rng.pick(&[5usize, 20, 40, 200, 2000, 6000]);
+            match rng.below(4) {
+                0 => ("lark", format!("{}start: \"a\"\n{}", "start: %lark {\n".repeat(d), "}\n".repeat(d))),
+                1 => ("lark", format!("start: {}\"a\"{}\n", "[".repeat(d), "]".repeat(d))),
+                2 => ("lark", format!("start: {}\"a\"{}\n", "(".repeat(d), ")?".repeat(d))),
+                _ => ("lark", format!("start: T\nT: {}\"a\"{}\n", "~(".repeat(d), ")".repeat(d))),
+            }
+        }
         7 => ("lark", "start: start start | \"\"\n".to_string()),
+        8 if rng.chance(1, 2) => {
+            // deep nesting in the schema document itself: arrays of arrays, objects in objects
+            let d = *rng.pick(&[10usize, 100, 127, 129, 1000, 5000]);
+            if rng.chance(1, 2) {
+                ("json", format!("{}{{\"type\":\"null\"}}{}", "{\"type\":\"array\",\"items\":".repeat(d), "}".repeat(d)))
+            } else {
+                ("json", format!("{}{{\"type\":\"null\"}}{}", "{\"type\":\"object\",\"properties\":{\"a\":".repeat(d), "}}".repeat(d)))
+            }
+        }
         8 => {
             let d = rng.range(5, 150);
             ("json", format!("{}{{\"type\":\"integer\"}}{}", "{\"allOf\":[".repeat(d), "]}".repeat(d)))
